@@ -310,7 +310,9 @@ def read_model_initial_conditions(
             layeri = profile.loc[ii].Layer
             InitCond.th[ii] = hydf.th_s.loc[layeri]
 
-    InitCond.thini = InitCond.th
+    # keep a private copy of the configured initial water content: th is modified in place
+    # while stepping (pre-irrigation, capillary rise, evaporation, transpiration)
+    InitCond.thini = np.array(InitCond.th, dtype=float)
 
     ParamStruct.Soil.profile = profile
     ParamStruct.Soil.Hydrology = hydf
